@@ -2039,6 +2039,14 @@ class Symex:
                     self.unsupported(node, f"Counter.{attr} on unhashable values")
             if attr in ("update", "pop", "copy", "setdefault", "clear", "popitem", "fromkeys"):
                 try:
+                    if attr == "update" and len(a) == 1 and isinstance(a[0], (T, Obj)) and not kw:
+                        # ``d.update(m)`` with a symbolic mapping == ``for k, v in m.items(): d[k] = v`` unrolled
+                        m = a[0].term if isinstance(a[0], Obj) else a[0]
+                        items = T("mcall", m, "items", (), ())
+                        for k in range(self.unroll):
+                            e = T("elem", items, k)
+                            o[T("item", e, 0)] = T("item", e, 1)
+                        return None
                     if attr == "update" and a and isinstance(a[0], list):
                         return o.update(dict(a[0]), **kw)
                     if attr == "copy" and isinstance(o, _DefaultDict):
